@@ -21,6 +21,7 @@ import (
 )
 
 type ctxKey struct{}
+type mwKey struct{}
 
 // trace is the per-request record the generated user code writes to.
 type trace struct {
@@ -127,7 +128,9 @@ func mkFilter(f Filter, stage string) restful.FilterFunction {
 				return http.HandlerFunc(func(rw http.ResponseWriter, r *http.Request) {
 					logStage(req, r, rw, stage, false)
 					runActs(f.Pre, nil, rw)
-					next.ServeHTTP(&tagWriter{inner: rw, id: f.ID}, r)
+					// a derived request, as real middlewares do (r.WithContext): the adapter must carry
+					// attributes and parameters over to it
+					next.ServeHTTP(&tagWriter{inner: rw, id: f.ID}, r.WithContext(context.WithValue(r.Context(), mwKey{}, f.ID)))
 					logStage(req, r, rw, stage, true)
 					runActs(f.Post, nil, rw)
 				})
